@@ -131,10 +131,14 @@ pub async fn type_definition(
                                 Entry::Procedure(_) => { /* no type definition */ }
                                 Entry::Variable(v) | Entry::Parameter(v) => {
                                     if let Some(DataType::Array { creator, .. }) = &v.data_type {
-                                        let entry =
-                                            doc.table.lookup(creator).expect("Invalid creator");
-                                        match entry {
-                                            GlobalEntry::Type(t) => {
+                                        // an anonymous array type is created by the variable itself,
+                                        // which has no type declaration to go to
+                                        if let Some(entry) = doc.table.lookup(creator) {
+                                            if let GlobalEntry::Type(t) = entry {
+                                                // early return for default values
+                                                if Entry::from(entry).is_default() {
+                                                    return Ok(None);
+                                                }
                                                 return Ok(Some(Location {
                                                     uri,
                                                     range: as_pos_range(
@@ -145,7 +149,6 @@ pub async fn type_definition(
                                                     ),
                                                 }));
                                             }
-                                            _ => panic!("Creator must be a type"),
                                         }
                                     }
                                     /* cannot look up primitive types */
